@@ -174,7 +174,9 @@ def xid_of (b):
 # ---------------------------------------------------------------------------------------------
 class World (object):
   side = None
-  def __init__ (self):
+  fos = None                    # the modelled `os` under the loop's wake-up pinger (flood group, switch side)
+  def __init__ (self, nconn=3):
+    self.nconn = nconn
     self.sel = None
     self.dead = None            # why the generator ended
     self.dead_site = None
@@ -183,9 +185,9 @@ class World (object):
     self.maxit = MAXIT
     self.budget = BUDGET
     self.nsend = 0
-    self.deliv = [[], [], []]   # per connection: dict(raw, cls, closed, obs)
-    self.pushed = [[], [], []]  # per connection: Pieces actually handed to the socket (in order)
-    self.eof_pushed = [False] * 3
+    self.deliv = [[] for _ in range(nconn)]    # per connection: dict(raw, cls, closed, obs)
+    self.pushed = [[] for _ in range(nconn)]   # per connection: Pieces actually handed to the socket (in order)
+    self.eof_pushed = [False] * nconn
     self.logs = []
     _CUR[0] = self
 
@@ -273,6 +275,7 @@ class CSock (env.ScriptSock):
   Connection.disconnect() gave up on and removes it)."""
   rd_shut = False
   faults = ()          # scripted answers of a connection the peer has RESET after its last bytes (see PEER_FAULTS)
+  tx_limit = None      # flood group: the peer reads slowly - one send() takes at most this many bytes (0: never writable)
   def fileno (self): return -1 if self.closed else 77
   def shutdown (self, how):
     if "shutdown" in self.faults and not self.closed:
@@ -293,6 +296,11 @@ class CSock (env.ScriptSock):
       import socket, errno
       self.sends.append((len(data), "reset"))
       raise socket.error(errno.ECONNRESET, "Connection reset by peer")
+    if self.tx_limit is not None and not (self.closed or self.shut):
+      if self.tx_limit == 0:
+        import socket, errno
+        raise socket.error(errno.EAGAIN, "would block")
+      data = data[:self.tx_limit]
     return env.ScriptSock.send(self, data, flags)
   def close (self):
     env.ScriptSock.close(self)                           # the descriptor is gone in any case
@@ -442,18 +450,26 @@ class CtlWorld (World):
 class SwWorld (World):
   """Real RecocoIOLoop.run() with three worker + OFConnection + SoftwareSwitch stacks."""
   side = "sw"
-  def __init__ (self):
-    World.__init__(self)
+  def __init__ (self, nconn=3, pipe=False):
+    World.__init__(self, nconn)
     self.core = env.boot()
     self.core.running = True
     import pox.lib.ioworker as iow
     import pox.datapaths.switch as swm
     self.iow = iow
-    iow.makePinger = env.FakePinger
+    self.fos = None
+    if pipe:
+      # the library's own wake-up pinger (pox.lib.util.make_pinger -> PipePinger) on a modelled pipe
+      import pox.lib.util as U
+      self.fos = PipeOS(); self._U = U; self._real_os = U.os
+      U.os = self.fos
+      iow.makePinger = U.make_pinger
+    else:
+      iow.makePinger = env.FakePinger
     self.iolog = self.looplog = RecLog(); iow.log = self.iolog; self.logs.append(self.iolog)
     self.loop = iow.RecocoIOLoop()
     self.socks = []; self.workers = []; self.conns = []; self.sws = []
-    for i in range(3):
+    for i in range(nconn):
       s = CSock(("controller", 6633 + i))
       w = iow.RecocoIOWorker(s)
       self.loop.register_worker(w)
@@ -479,11 +495,11 @@ class SwWorld (World):
     r = []
     for x in self.sel._args[0]:
       if x is self.loop.pinger:
-        if x.pings: r.append(x)
+        if (self.fos.readable(x.fileno()) if self.fos is not None else x.pings): r.append(x)
       else:
         s = x.socket
         if s.readable(): r.append(x)
-    return r, list(self.sel._args[1])
+    return r, [x for x in self.sel._args[1] if getattr(x.socket, "tx_limit", None) != 0]
 
   def select_set (self):
     return [x for x in self.sel._args[0] + self.sel._args[1] + self.sel._args[2] if x is not self.loop.pinger]
@@ -508,6 +524,7 @@ class SwWorld (World):
   def finish (self):
     try: self.g.close()
     except BaseException: pass
+    if self.fos is not None: self._U.os = self._real_os
     _CUR[0] = None
 
 
@@ -1085,6 +1102,366 @@ def big_cases (side, insts, quick):
   return out
 
 
+# -- floods: sustained bursts of minimal messages; the loop's REAL wake-up pinger on a modelled pipe ---------------
+PIPE_CAP = 65536                 # capacity of a Linux pipe (16 pages) unless somebody asks for another one
+PIPE_BUF = 4096                  # writes up to this size are atomic
+
+
+class Blocked (BaseException):
+  """A system call that would never return: the calling thread is the only one that could make it return."""
+
+
+class PipeOS (object):
+  """Stands in for `os` inside pox.lib.util so that the REAL pinger code (make_pinger -> PipePinger over os.pipe /
+  os.write / os.read) runs on a modelled pipe with the semantics the balance depends on: a byte counter with a
+  capacity, descriptors that are blocking unless made non-blocking (os.set_blocking), a write that does not fit
+  raises EAGAIN on a non-blocking descriptor and otherwise NEVER RETURNS (the I/O loop's thread is the pipe's only
+  reader) - modelled by noting the call and raising Blocked; likewise a read of an empty pipe."""
+  name = "posix"
+  def __init__ (self):
+    self.pipes = {}; self.nonblock = set(); self.next = 10 ** 6
+    self.blocked = None          # (system call, pox function that made it, bytes in the pipe)
+    self.max_backlog = 0; self.writes = 0; self.reads = 0; self.eagain = 0
+  def pipe (self):
+    r, w = self.next, self.next + 1; self.next += 2
+    p = dict(n=0, r=r, w=w)
+    self.pipes[r] = p; self.pipes[w] = p
+    return (r, w)
+  def set_blocking (self, fd, flag):
+    if fd not in self.pipes:
+      import os as _os; return _os.set_blocking(fd, flag)
+    if flag: self.nonblock.discard(fd)
+    else: self.nonblock.add(fd)
+  def get_blocking (self, fd):
+    if fd not in self.pipes:
+      import os as _os; return _os.get_blocking(fd)
+    return fd not in self.nonblock
+  def _stuck (self, call, p, text):
+    import errno
+    self.blocked = (call, sys._getframe(2).f_code.co_name, p["n"])
+    raise Blocked(text)
+  def write (self, fd, data):
+    p = self.pipes.get(fd)
+    if p is None:
+      import os as _os; return _os.write(fd, data)
+    import errno
+    if fd != p["w"]: raise OSError(errno.EBADF, "Bad file descriptor")
+    n = len(data); room = PIPE_CAP - p["n"]
+    self.writes += 1
+    if n == 0: return 0
+    k = n if room >= n else (0 if n <= PIPE_BUF else room)
+    if k < n and fd not in self.nonblock:
+      self._stuck("write", p, "write of %d byte(s) to a pipe holding %d of %d bytes" % (n, p["n"], PIPE_CAP))
+    if k == 0:
+      self.eagain += 1
+      raise BlockingIOError(errno.EAGAIN, "Resource temporarily unavailable")
+    p["n"] += k
+    if p["n"] > self.max_backlog: self.max_backlog = p["n"]
+    return k
+  def read (self, fd, n):
+    p = self.pipes.get(fd)
+    if p is None:
+      import os as _os; return _os.read(fd, n)
+    import errno
+    if fd != p["r"]: raise OSError(errno.EBADF, "Bad file descriptor")
+    self.reads += 1
+    if p["n"] == 0 and n > 0:
+      if fd not in self.nonblock: self._stuck("read", p, "read of an empty pipe")
+      raise BlockingIOError(errno.EAGAIN, "Resource temporarily unavailable")
+    k = min(n, p["n"]); p["n"] -= k
+    return b" " * k
+  def close (self, fd):
+    if fd in self.pipes: return
+    if fd >= 10 ** 6: return          # a modelled descriptor of an earlier world (PipePinger.__del__)
+    import os as _os; return _os.close(fd)
+  def readable (self, fd):
+    p = self.pipes.get(fd); return bool(p and p["r"] == fd and p["n"] > 0)
+  def backlog (self):
+    return max([p["n"] for p in self.pipes.values()] or [0])
+  def __getattr__ (self, n):
+    import os as _os
+    return getattr(_os, n)
+
+
+FLOOD_XID = 0x46000000           # + (connection << 20) + index
+# kind -> (what one unit is, type of the reply every unit is owed (None: none), delivered to the handler?)
+FLOOD_KINDS = {
+  "unknown-type":    dict(sides="sw",    typ=0x63, length=8,  reply=W.ERROR, delivered=False, bad="unknown-type"),
+  "bad-length":      dict(sides="sw",    typ=W.GET_CONFIG_REQUEST, length=12, reply=W.ERROR, delivered=False, bad="length!=fixed"),
+  "echo-request":    dict(sides="swctl", typ=W.ECHO_REQUEST, length=8, reply=W.ECHO_REPLY, delivered=True, bad=None),
+  "barrier-request": dict(sides="sw",    typ=W.BARRIER_REQUEST, length=8, reply=W.BARRIER_REPLY, delivered=True, bad=None),
+  "barrier-reply":   dict(sides="ctl",   typ=W.BARRIER_REPLY, length=8, reply=None, delivered=True, bad=None),
+}
+FLOOD_TX = {"reads": None, "reads-512": 512, "stalls": 0}      # what the flooding peer does with the replies
+
+
+def flood_unit (kind, i, k):
+  K = FLOOD_KINDS[kind]
+  return struct.pack("!BBHL", W.VERSION, K["typ"], K["length"], FLOOD_XID + (i << 20) + k) + b"\0" * (K["length"] - 8)
+
+
+def flood_stream (kind, i, n):
+  K = FLOOD_KINDS[kind]
+  pad = b"\0" * (K["length"] - 8); typ, ln, base = K["typ"], K["length"], FLOOD_XID + (i << 20)
+  pk = struct.Struct("!BBHL").pack
+  return b"".join([pk(W.VERSION, typ, ln, base + k) + pad for k in range(n)])
+
+
+def sibling_turn (t):
+  """Turns of the flood phase in which every benign connection gets its next valid message: 1, 2, 3, 4, 6, 8, 12, 16,
+  24, 32, ... (twice per octave)."""
+  if t < 1: return False
+  while t % 2 == 0 and t > 3: t //= 2
+  return t in (1, 2, 3)
+
+
+def flood_parties (case):
+  H = case["hostile"]
+  nconn = max(3, H + 1)
+  hostile = list(range(1, 1 + H))
+  return nconn, hostile, [i for i in range(nconn) if i not in hostile]
+
+
+class FloodMixin (object):
+  """Light bookkeeping for connections that receive 10^5 messages: (class name, xid, closed) per delivery."""
+  def init_flood (self, hostile):
+    self.hostile = hostile
+    self.light = dict((i, []) for i in hostile)
+    self.turns = 0; self.bytes_in = 0
+
+
+class SwFlood (FloodMixin, SwWorld):
+  def __init__ (self, nconn, hostile):
+    self.init_flood(hostile)
+    SwWorld.__init__(self, nconn, pipe=True)
+  def _mk (self, i, orig):
+    if i not in self.hostile: return SwWorld._mk(self, i, orig)
+    light = self.light[i]; wk = None
+    def rx (connection, msg):
+      w = self.workers[i]
+      light.append((type(msg).__name__, msg.xid, bool(w.closed or w._shutdown_send)))
+      return orig(connection, msg)
+    return rx
+
+
+class CtlFlood (FloodMixin, CtlWorld):
+  def __init__ (self, nconn, hostile):
+    self.init_flood(hostile)
+    CtlWorld.__init__(self)
+    self.socks = [CSock(("switch", 100 + i)) for i in range(nconn)]
+    self.nconn = nconn
+    self.deliv = [[] for _ in range(nconn)]; self.pushed = [[] for _ in range(nconn)]; self.eof_pushed = [False] * nconn
+  def record (self, i, msg, cls=""):
+    if i not in self.hostile: return CtlWorld.record(self, i, msg, cls)
+    self.light[i].append((cls + type(msg).__name__, getattr(msg, "xid", None), self.is_closed(i)))
+
+
+def flood_execute (case):
+  """Handshake on every connection (one message per select round); then the flood phase: every hostile connection
+  has N units + one valid echo request (the marker) to hand over - all of it readable at once, or one chunk more per
+  select round - while every benign connection gets its next valid message in the turns of sibling_turn(); the
+  harness answers every Select honestly until nothing is readable / writable and nothing is left to arrive; then one
+  more valid message per benign connection and an idle wake-up."""
+  side = case["side"]
+  nconn, hostile, benign = flood_parties(case)
+  w = (SwFlood if side == "sw" else CtlFlood)(nconn, hostile)
+  old = sys.stderr; sys.stderr = io.StringIO()
+  try:
+    for i in hostile: w.socks[i].tx_limit = FLOOD_TX[case["tx"]]
+    w.completed = _flood_drive(case, w, hostile, benign)
+    w.final_sel = w.selecting() if w.sel is not None and not w.dead else []
+    w.closed = [w.is_closed(i) for i in range(nconn)]
+    w.blocked = w.fos.blocked if w.fos is not None else None
+    w.max_backlog = w.fos.max_backlog if w.fos is not None else 0
+  finally:
+    w.finish()
+    sys.stderr = old
+  return w
+
+
+def _flood_drive (case, w, hostile, benign):
+  side = case["side"]; n = case["n"]; mode = case["mode"]
+  if not w.run_scripts([handshake(side, i) for i in range(w.nconn)]): return False
+  w.marker = {}
+  left = {}
+  for i in hostile:
+    m = Piece(W.echo_request(FLOOD_XID + (i << 20) + 0xfffff, b"marker"), True, "marker")
+    w.marker[i] = m
+    left[i] = flood_stream(case["kind"], i, n) + m.data
+  total = sum(len(b) for b in left.values())
+  w.flood_bytes = total
+  # honest work is linear in the bytes handed over: a step may take 40 lines per readable byte on top of the usual budget
+  chunk = None if mode == "all" else int(mode.split(":")[1])
+  w.max_turns = 64 + total // 256 + (total // chunk if chunk else 0)
+  nsib = [0] * w.nconn
+  def sib ():
+    for i in benign:
+      w.push(i, valid_msg(side, i, nsib[i])); nsib[i] += 1
+  t = 0
+  while True:
+    t += 1
+    for i in hostile:
+      if left[i]:
+        k = len(left[i]) if chunk is None else chunk
+        w.socks[i].rx.append(left[i][:k]); left[i] = left[i][k:]
+    if sibling_turn(t): sib()
+    if not w.select_ok(): return False
+    r, wl = w.ready()
+    if not r and not wl and not any(left.values()): break
+    if t > w.max_turns:
+      w.livelock = True; return False
+    w.turns = t
+    avail = sum(len(c) for i in hostile for c in w.socks[i].rx)
+    w.budget = BUDGET + 40 * avail
+    if not w.step(r, wl): return False
+  w.budget = BUDGET
+  sib()
+  if not w.settle(): return False
+  return w.step([])
+
+
+def flood_class (case):
+  return "flood:%s" % case["kind"], "one-flooding-connection" if case["hostile"] == 1 else "several-flooding-connections"
+
+
+def flood_judge (case, w):
+  """Same clauses as judge(), for a flood case.  Keys: loop-level verdicts (blocked / nonterminating / livelock / loop
+  death) are keyed by the number of flooding connections (what the balance between replies and wake-ups depends on),
+  not by the kind of unit; per-unit verdicts by kind."""
+  side = case["side"]; kind = case["kind"]; K = FLOOD_KINDS[kind]; n = case["n"]
+  nconn, hostile, benign = flood_parties(case)
+  mc, fc = flood_class(case)
+  bad = []
+  def v (clause, symptom, subject, text):
+    key = ":".join([PID, clause, side, symptom] + [x for x in subject if x])
+    if not any(k == key for k, _ in bad): bad.append((key, text))
+  lname = "OpenFlow_01_Task.run" if side == "ctl" else "RecocoIOLoop.run"
+  # (1) termination
+  if w.blocked:
+    call, fn, held = w.blocked
+    v("1", "loop-blocked-in-%s" % fn, [fc],
+      "in turn %d of the flood %s called os.%s() on the loop's wake-up pipe holding %d of %d bytes: a blocking %s that only the "
+      "calling thread could ever satisfy never returns - the scheduler thread, this I/O loop and every connection on it stop"
+      % (w.turns, fn, call, held, PIPE_CAP, call))
+    return bad, ("blocked", fn, call)
+  if w.tripped or w.livelock:
+    if w.tripped:
+      v("1", "nonterminating", [mc, fc], "a step into %s exceeded %d lines with at most %d bytes to read" % (lname, w.budget, w.flood_bytes))
+    else:
+      v("1", "livelock", [mc, fc], "%s needed more than %d select rounds to take in %d bytes" % (lname, w.max_turns, w.flood_bytes))
+    return bad, ("tripped" if w.tripped else "livelock",)
+  # (2) loop alive
+  if w.dead:
+    site, via = (w.dead_site or (None, None))
+    if site is None and w.looplog.exc: site, via = w.looplog.exc[-1]
+    if w.dead == "select":
+      v("2", "loop-died", [via], "%s left a closed socket (fileno() == -1) in the set it selects on" % lname)
+    else:
+      v("2", "loop-died", (["via=" + via, site] if via and via != "read>unpack_new" else ["via=" + via] if via else ["at=" + site] if site else [mc, fc]),
+        "the generator of %s ended (%s)%s during a flood: no connection is served any more" % (lname, w.dead, " after %s" % site if site else ""))
+    return bad, ("dead", site)
+  for i in benign:
+    if i not in w.final_sel:
+      v("2", "sibling-dropped-from-select", [mc, fc], "sibling connection %d is no longer in the loop's read list" % i)
+  if side == "ctl" and "L" not in w.final_sel:
+    v("2", "listener-dropped-from-select", [mc, fc], "the listening socket is no longer selected on")
+  # (3) siblings: delivered exactly their messages, in order; every echo request answered
+  for i in benign:
+    exp = [p.data for p in w.pushed[i]]
+    got = [d["raw"] for d in w.deliv[i]]
+    if w.closed[i]:
+      v("3", "sibling-closed", [mc, fc], "sibling connection %d was closed" % i)
+    elif got != exp:
+      k = next((k for k in range(min(len(got), len(exp))) if got[k] != exp[k]), min(len(got), len(exp)))
+      v("3", "sibling-messages-differ", [mc, fc], "sibling %d: sent %d messages, delivered %d; first difference at #%d" % (i, len(exp), len(got), k))
+    if any(d["closed"] for d in w.deliv[i]):
+      v("5", "delivered-after-close", [mc, fc], "sibling %d got a message delivered after it was closed" % i)
+    replies = set((xid_of(m), m[8:]) for m in W.split(w.socks[i].tx)[0] if m[1] == W.ECHO_REPLY)
+    for p in w.pushed[i]:
+      if p.label == "echo-request" and (xid_of(p.data), p.data[8:]) not in replies and not w.closed[i]:
+        v("3", "sibling-echo-unanswered", [mc, fc], "sibling %d: echo request xid %#x was not answered" % (i, xid_of(p.data)))
+  # (4)/(5) the flooding connections
+  summ = []
+  stalled = FLOOD_TX[case["tx"]] == 0
+  for i in hostile:
+    base = FLOOD_XID + (i << 20)
+    D = [d for d in w.light[i] if d[1] is not None and base <= d[1] <= base + 0xfffff]     # (class, xid, closed)
+    closed = w.closed[i]
+    if any(d[2] for d in D):
+      v("5", "delivered-after-close", [mc, fc], "a message was delivered from flooding connection %d after it had been closed" % i)
+    units = [base + k for k in range(n)]
+    dx = [d[1] for d in D]
+    # what the switch / controller wrote (a stalled peer: what it queued for writing)
+    out = w.socks[i].tx
+    if side == "sw": out = out + w.workers[i].send_buf
+    else: out = out + b"".join(d for (c, d) in w.st.deferred.queued if c is w.cons[i])
+    ms, _ = W.split(out)
+    rx = [xid_of(m) for m in ms if K["reply"] is not None and m[1] == K["reply"] and base <= xid_of(m) < base + 0xfffff
+          and (m[1] != W.ERROR or (len(m) >= 20 and m[12:16] == struct.pack("!BBH", W.VERSION, K["typ"], K["length"])))]
+    mark = base + 0xfffff
+    if K["delivered"]:
+      if not closed and dx != units + [mark]:
+        k = next((k for k in range(min(len(dx), n)) if dx[k] != units[k]), min(len(dx), n))
+        v("4", "valid-not-delivered", [mc, fc], "flooding connection %d stayed open, %d valid %s units + 1 echo request sent, %d delivered; first difference at #%d"
+          % (i, n, kind, len(dx), k))
+    else:
+      got_bad = [x for x in dx if x != mark]
+      if got_bad:
+        v("4", "malformed-delivered", [tname(K["typ"]), K["bad"]], "%d of %d malformed units (%s) of a flood were delivered as messages" % (len(got_bad), n, kind))
+      if not closed and mark not in dx:
+        v("4", "valid-not-delivered", [mc, fc], "the valid echo request behind %d %s units was not delivered although the connection stayed open" % (n, kind))
+    if K["reply"] is not None and not closed:
+      if rx != units:
+        k = next((k for k in range(min(len(rx), n)) if rx[k] != units[k]), min(len(rx), n))
+        if K["bad"]:
+          v("4", "malformed-ignored" if len(rx) <= n and rx == units[:len(rx)] or k < len(rx) and rx[k] > units[k] else "malformed-answered-twice",
+            [tname(K["typ"]), K["bad"]], "flooding connection %d stayed open: %d malformed units (%s), %d error replies; first difference at unit #%d"
+            % (i, n, kind, len(rx), k))
+        else:
+          v("3", "flood-replies-differ", [mc, fc], "flooding connection %d stayed open: %d %s units, %d replies; first difference at unit #%d" % (i, n, kind, len(rx), k))
+    summ.append((len(D), len(rx), closed))
+  return bad, (tuple(summ), w.turns, w.max_backlog, tuple(sorted(set(w.logged()), key=repr)), tuple(len(w.deliv[i]) for i in benign))
+
+
+def _n_class (n):
+  return "n<=1024" if n <= 1024 else "n<=8192" if n <= 8192 else "n<=65536" if n <= 65536 else "n>65536"
+
+
+FLOOD_N = (1, 2, 1023, 1024, 1025, 2047, 2048, 2049, 4096, 8191, 8192, 8193, 16384, 32768, 65536)
+FLOOD_BIG = {1: (73728, 81920, 90112, 102400), 2: (40960, 65536, 73728, 102400), 3: (32768, 40960, 65536)}   # per flooding connection
+FLOOD_MODES = ("all", "chunk:1000", "chunk:2048", "chunk:8192", "chunk:65536")
+
+
+def flood_quick (side, H, n, kind, mode, tx):
+  """The part of the thorough enumeration that the quick tier runs."""
+  if H > 2: return False
+  if n > 8192:                  # the long bursts: one per number of flooding connections
+    return (H, n) in ((1, 81920), (2, 73728)) and kind == "unknown-type" and mode == "all"
+  if tx != "reads": return mode == "all" and n in (1, 1025)
+  if mode != "all":
+    return mode in ("chunk:1000", "chunk:8192") and (n == 1025 or (n == 8192 and H == 1 and kind in ("bad-length", "barrier-reply")))
+  if n in (1, 1023, 1024, 1025): return True
+  if n == 8192: return kind in ("unknown-type", "echo-request") and (H == 1 or kind == "unknown-type")
+  return False
+
+
+def flood_cases (side, quick):
+  """N units of one kind per flooding connection, on 1, 2 or 3 of the connections, all readable at once or arriving
+  one chunk per select round, the peer reading the replies / reading 512 bytes per send / not reading."""
+  out = []
+  kinds = sorted(k for k in FLOOD_KINDS if side in FLOOD_KINDS[k]["sides"])
+  for H in (1, 2, 3):
+    for kind in kinds:
+      for n in FLOOD_N + (FLOOD_BIG[H] if side == "sw" else ()):
+        for mode in FLOOD_MODES:
+          if n > 65536 and mode not in ("all", "chunk:8192", "chunk:65536"): continue
+          for tx in sorted(FLOOD_TX):
+            if tx != "reads" and (mode != "all" or n > 8192): continue
+            if quick and not flood_quick(side, H, n, kind, mode, tx): continue
+            out.append(dict(side=side, group="flood", name="flood", hostile=H, n=n, kind=kind, mode=mode, tx=tx))
+  return out
+
+
 HS_TYPES = dict(ctl=("HELLO", "FEATURES_REPLY", "BARRIER_REPLY"),
                 sw=("HELLO", "FEATURES_REQUEST", "SET_CONFIG", "BARRIER_REQUEST"))
 XID_MASKS = (1, 0x80000000, 0xffffffff)
@@ -1124,6 +1501,9 @@ def _worker (cases):
   insts = _INSTS[0] or load_insts()
   rep = Report(PID, "model_checking")
   for case in cases:
+    if case.get("group") == "flood":
+      _flood_case(rep, case)
+      continue
     side = case["side"]; inst = insts[case["inst"]]
     try:
       w, bad, summ = _execute_and_judge(case, insts)
@@ -1145,6 +1525,26 @@ def _worker (cases):
       rep.sample(dict(case=case, hostile_deliveries=[d["cls"] for d in w.deliv[HOSTILE]], errors_sent=len(w.errs[HOSTILE]),
                       hostile_closed=w.closed[HOSTILE], sibling_deliveries=[len(w.deliv[0]), len(w.deliv[2])]))
   return rep
+
+
+def _flood_case (rep, case):
+  try:
+    w = flood_execute(case)
+    bad, summ = flood_judge(case, w)
+  except Exception as e:
+    rep.error("case %r: %s: %s" % (case, type(e).__name__, e))
+    return
+  rep.evaluations += 1
+  rep.transitions += w.nsend
+  rep.outcome((case["side"], "flood", case["kind"], case["hostile"], case["mode"], case["tx"], _n_class(case["n"]), summ, tuple(sorted(k for k, _ in bad))))
+  for key, text in bad:
+    rep.violation(key, "%s side, flood of %d %s units on each of %d connection(s) (%s, peer %s), %d benign sibling(s): %s" %
+                  ("controller" if case["side"] == "ctl" else "switch", case["n"], case["kind"], case["hostile"],
+                   "all readable at once" if case["mode"] == "all" else "%s more bytes per select round" % case["mode"].split(":")[1],
+                   case["tx"], len(flood_parties(case)[2]), text), case)
+  if not bad and case["n"] in (1025, 81920) and case["mode"] == "all":
+    rep.sample(dict(case=case, turns=w.turns, max_wakeup_pipe_backlog=w.max_backlog, flooding=[(len(w.light[i]), w.closed[i]) for i in w.hostile],
+                    sibling_deliveries=[len(w.deliv[i]) for i in range(w.nconn) if i not in w.hostile]))
 
 
 def run (cfg):
@@ -1169,8 +1569,14 @@ def run (cfg):
       cases.extend(seg_cases(side, insts, quick))
     if not cfg.only or cfg.only in (side, "big"):
       cases.extend(big_cases(side, allinsts, quick))
+  floods = []
+  for side in ("ctl", "sw"):
+    if not cfg.only or cfg.only in (side, "flood"):
+      floods.extend(flood_cases(side, quick))
   # round-robin slices: every slice gets the same mix of cheap and expensive cases
-  for r in pmap(_worker, split(cases, cfg.workers * 6), cfg.workers, seed=cfg.seed):
+  # the long floods are work items of their own (seconds each), the short ones go in a few slices
+  items = [[c] for c in floods if c["n"] > 8192] + split([c for c in floods if c["n"] <= 8192], cfg.workers * 2) + split(cases, cfg.workers * 6)
+  for r in pmap(_worker, [x for x in items if x], cfg.workers, seed=cfg.seed):
     rep.merge(r)
   rep.state_count = rep.evaluations
   rep.rule = ("for each side (controller: real OpenFlow_01_Task.run over a fake socket module; switch: real RecocoIOLoop.run "
@@ -1223,6 +1629,22 @@ def run (cfg):
 
 
 def replay (cfg, data):
+  if data.get("group") == "flood":
+    case = dict(data)
+    w = flood_execute(case)
+    bad, summ = flood_judge(case, w)
+    lines = ["case: %r" % (case,)]
+    lines.append("turns of the flood phase: %d; bytes to take in: %d; wake-up pipe: at most %d of %d bytes held, blocked: %r"
+                 % (w.turns, getattr(w, "flood_bytes", 0), w.max_backlog, PIPE_CAP, w.blocked))
+    for i in w.hostile:
+      lines.append("flooding connection %d: %d deliveries, %d bytes written + %d queued, closed: %r"
+                   % (i, len(w.light[i]), len(w.socks[i].tx), len(w.workers[i].send_buf) if case["side"] == "sw" else 0, w.closed[i]))
+    lines.append("closed: %r  loop: %s  tripped: %s  selecting: %r" % (w.closed, w.dead or "alive", w.tripped, w.final_sel))
+    lines.append("sibling deliveries: %r of %r" % ([len(w.deliv[i]) for i in range(w.nconn) if i not in w.hostile],
+                                                   [len(w.pushed[i]) for i in range(w.nconn) if i not in w.hostile]))
+    lines.append("exceptions logged by pox: %r" % (sorted(set(w.logged()), key=repr),))
+    for key, text in bad: lines.append("VIOLATED %s: %s" % (key, text))
+    return bool(bad), "\n".join(lines)
   insts = load_insts()
   case = dict(data); case.pop("note", None)
   if case.get("name"):                       # the instance is identified by name; the index is a cache
